@@ -48,9 +48,9 @@ class LDMMaintenanceThread(LDMMaintenance):
         with self.data_containers_lock:
             super().update_provider_data(data_object_id, data_object)
 
-    def del_provider_data(self, data_object: dict) -> None:
+    def del_provider_data(self, data_object: dict) -> bool:
         with self.data_containers_lock:
-            super().del_provider_data(data_object)
+            return super().del_provider_data(data_object)
 
     def get_all_data_containers(self) -> tuple[dict, ...]:
         with self.data_containers_lock:
